@@ -32,6 +32,11 @@ var extModels = map[string]extModel{
 	"(encoding/binary.bigEndian).AppendUint16": {special: "append2"},
 	"(encoding/binary.bigEndian).AppendUint32": {special: "append4"},
 	"(encoding/binary.bigEndian).AppendUint64": {special: "append8"},
+	"math/bits.Len":               {special: "bitlen64"},
+	"math/bits.Len64":             {special: "bitlen64"},
+	"math/bits.Len32":             {special: "bitlen32"},
+	"math/bits.Len16":             {special: "bitlen16"},
+	"math/bits.Len8":              {special: "bitlen8"},
 	"bytes.Clone":                 {special: "clone"},
 	"slices.Clone":                {special: "clone"},
 	"bytes.Index":                 {special: "index"},
@@ -254,6 +259,16 @@ func (it *interp) execCall(s *state, f frameID, fn *ssa.Function, x *ssa.Call) *
 					nl := la.AddConst(k)
 					d.addFact(lin.LE(nl, c))
 					return rep{kind: kSlice, len: nl, cap: c, isnil: lin.Const(0)}
+				})
+			case "bitlen64", "bitlen32", "bitlen16", "bitlen8":
+				// number of significant bits: 0 <= r <= width, and r == 0 exactly when the argument is 0 is not
+				// stated (only the range is needed for sizes computed from it)
+				w := map[string]int64{"bitlen64": 64, "bitlen32": 32, "bitlen16": 16, "bitlen8": 8}[m.special]
+				set(func(d *disjunct) rep {
+					r := it.valAtom(f, x)
+					d.addFact(lin.GE(r, lin.Const(0)))
+					d.addFact(lin.LE(r, lin.Const(w)))
+					return rep{kind: kInt, lin: r}
 				})
 			case "clone":
 				// a copy of the argument: same length, nil stays nil
